@@ -404,7 +404,7 @@ impl Config {
                         );
                     }
                     Some("apply-max-lease") => {
-                        policy.apply_default_lease = Some(
+                        policy.apply_max_lease = Some(
                             parse_duration("apply-max-lease", v)
                                 .map_err(|x| x.annotate("Failed to parse apply-max-lease"))?
                                 .ok_or_else(|| {
